@@ -132,6 +132,9 @@ def init_module(m, wseed: int, name: str):
             if m.bias is not None:
                 m.bias.copy_(torch.randn(m.bias.shape, generator=g) * 0.3 + 0.1)
         elif isinstance(m, (nn.BatchNorm1d, nn.BatchNorm2d)):
+            # non-default hyper-parameters in half of the BatchNorms (1e-3 is the Keras default)
+            m.eps = [1e-5, 1e-5, 1e-3, 1e-2][int(torch.randint(0, 4, (1,), generator=g))]
+            m.momentum = [0.1, 0.1, 0.01, 0.5][int(torch.randint(0, 4, (1,), generator=g))]
             m.running_mean.copy_(torch.randn(m.running_mean.shape, generator=g) * 0.4)
             m.running_var.copy_(torch.rand(m.running_var.shape, generator=g) * 1.5 + 0.5)
             m.weight.copy_(torch.rand(m.weight.shape, generator=g) + 0.5)
@@ -675,7 +678,18 @@ def netspecs(draw, prof: Profile):
             t = b.act(t)
         elif kind == 'bridge':
             # 2-D trunk -> 1-D trunk: only the spatial axes are merged, channels stay channels
-            t = b.add('flatten_hw', [t], variant=draw(st.sampled_from(['mod', 'method', 'torch'])))
+            if draw(st.booleans()):
+                t = b.add('flatten_hw', [t],
+                          variant=draw(st.sampled_from(['mod', 'method', 'torch'])))
+            else:
+                # ... or the width is collapsed by a (1, W) convolution and the unit axis dropped
+                W = b.shapes[t][2]
+                c = b.add('conv2d', [t], k=[1, W], p=[0, 0], stride=1,
+                          cout=draw(st.integers(1, p.max_c)), bias=draw(st.booleans()),
+                          bn=p.bn and draw(st.integers(0, 2)) == 0, groups=1)
+                c = b.maybe_act(c)
+                t = b.add('squeeze', [c], dim=draw(st.sampled_from([-1, 3])),
+                          variant=draw(st.sampled_from(['method', 'torch'])))
         elif kind == 'pool':
             t = b.add(draw(st.sampled_from(['avgpool', 'maxpool'])), [t])
         elif kind == 'bn':
